@@ -188,7 +188,7 @@ namespace sim {
 void register_c19() {
     Property p;
     p.id = "C19"; p.level = "fault_enumeration";
-    p.rule = "per seeded scenario (schema build with capacity growth where a failed add is skipped and the caller carries on adding; write of a small multi-type nullable table with a seeded history per codec, path or FILE*; open + metadata + whole-chunk reads + skip + statistics in fread/mmap/buffer on a peer- or carquet-written file; batch read in each transport) a fault-free dry run counts the K tracked allocation requests (carquet, zlib and zstd requests made inside API calls, numbered by the allocator ledger), then request k fails for EVERY k in 0..K-1 (for K > 800: the first and last 200 and an even sample of about 400 in between), plus every fopen returning NULL and ZSTD_createDCtx returning NULL; thorough tier adds seeded multi-failure runs (each request fails with probability p); oracle per fault point: no sanitizer report, an error is reported by some call or else the effect equals the fault-free run (identical file bytes / identical values), data delivered before an error is a correct prefix, a column reader that is read on after a failed call delivers the continuation of the sequence without a hole, a batch reader may be asked for the next batch again after an error, every handle can still be closed/freed/aborted, ledger empty; after the first error the writer is aborted (odd k) or closed (even k); one evaluation = one fault point";
+    p.rule = "per seeded scenario (schema build with capacity growth where a failed add is skipped and the caller carries on adding; write of a small multi-type nullable table with a seeded history per codec, path or FILE*; open + metadata + whole-chunk reads + skip + statistics in fread/mmap/buffer on a peer- or carquet-written file; batch read in each transport) a fault-free dry run counts the K tracked allocation requests (carquet, zlib and zstd requests made inside API calls, numbered by the allocator ledger), then request k fails for EVERY k in 0..K-1 (for K > 800: the first and last 200 and an even sample of about 400 in between), plus every fopen returning NULL and ZSTD_createDCtx returning NULL; thorough tier adds seeded multi-failure runs (each request fails with probability p); oracle per fault point: no sanitizer report, an error is reported by some call or else the effect equals the fault-free run (identical file bytes / identical values), data delivered before an error is a correct prefix, a column reader that is read on after a failed call delivers the continuation of the sequence without a hole, a batch reader may be asked for the next batch again after an error, every handle can still be closed/freed/aborted, a writer that could not be created leaves no file, skip never answers a failure with 0 while rows are left, ledger empty; after the first error the writer is aborted (odd k) or closed (even k); one evaluation = one fault point";
     p.quick_runs = 4000; p.thorough_runs = 200000;
     p.run = run_c19; p.recheck = 128;
     p.assumptions = {"allocations made by a per-thread ZSTD decompression context (process lifetime) are not numbered fault sites; its creation is (ZSTD_createDCtx -> NULL)",
